@@ -7,6 +7,8 @@ import (
 	"os"
 	"os/exec"
 	"path/filepath"
+	"runtime/debug"
+	"runtime/pprof"
 	"sort"
 	"strconv"
 	"strings"
@@ -26,6 +28,7 @@ func envOr(k, d string) string {
 }
 
 func main() {
+	debug.SetGCPercent(600)
 	if len(os.Args) < 2 {
 		fmt.Fprintln(os.Stderr, "usage: gosym run|check|replay|selftest ...")
 		os.Exit(2)
@@ -139,7 +142,13 @@ func cmdRun(args []string) {
 	notag := fs.Bool("notag", false, "load without the verif tag")
 	verbose := fs.Bool("v", false, "verbose")
 	doReplay := fs.Bool("replay", false, "replay failures natively")
+	prof := fs.String("cpuprofile", "", "write a CPU profile")
 	fs.Parse(args)
+	if *prof != "" {
+		f, _ := os.Create(*prof)
+		pprof.StartCPUProfile(f)
+		defer pprof.StopCPUProfile()
+	}
 	tags := []string{"verif"}
 	if *notag {
 		tags = nil
